@@ -195,10 +195,32 @@ func runCrashWorkload(cfg CrashCfg, seed uint64, cas int, res *CrashRes) *crashW
 			continue
 		case cfg.BigFiles && big == 1 && i == cfg.NOps*2/3:
 			big = 2
-			if cas%8 >= 4 {
+			o := s.m.lookupIn(s.m.Objs[s.m.Root], "big")
+			switch {
+			case cas%4 == 1 || o == nil || o.FH == nil:
 				op = &Op{K: OpRemove, H: s.srv.Root, Name: "big"}
-			} else if o := s.m.lookupIn(s.m.Objs[s.m.Root], "big"); o != nil && o.FH != nil {
-				op = &Op{K: OpSetattr, H: o.FH, SetSize: true, Size: uint64(rng.Intn(3 * BlockSize))}
+			case cas%4 == 2:
+				// truncate to nothing and remove right away (the free is still in progress)
+				doOne(&Op{K: OpSetattr, H: o.FH, SetSize: true, Size: 0})
+				op = &Op{K: OpRemove, H: s.srv.Root, Name: "big"}
+			case cas%4 == 3:
+				// truncate to a block boundary and append right away
+				sz := uint64(rng.Intn(3)) * BlockSize
+				doOne(&Op{K: OpSetattr, H: o.FH, SetSize: true, Size: sz})
+				s.nextUid++
+				op = &Op{K: OpWrite, H: o.FH, Off: sz, Count: 100, DataLen: 100, Uid: s.nextUid, Stable: 2}
+			default:
+				op = &Op{K: OpSetattr, H: o.FH, SetSize: true, Size: []uint64{0, BlockSize, 2 * BlockSize, uint64(rng.Intn(3 * BlockSize))}[rng.Intn(4)]}
+			}
+		case i%11 == 9:
+			// a stable write into a hole of a pre-sized file (the file does not grow)
+			if o := s.pickObj(KReg); o != nil && o.Size < 600*BlockSize {
+				doOne(&Op{K: OpSetattr, H: o.FH, SetSize: true, Size: o.Size + uint64(3+rng.Intn(12))*BlockSize})
+				if oo := s.m.Obj(o.FH); oo != nil && oo.Size > 2*BlockSize {
+					s.nextUid++
+					n := rng.PickU32([]uint32{10, BlockSize, 5000})
+					op = &Op{K: OpWrite, H: o.FH, Off: oo.Size - 2*BlockSize - uint64(rng.Intn(BlockSize)), Count: n, DataLen: n, Uid: s.nextUid, Stable: 1 + rng.Intn(2)}
+				}
 			}
 		case cfg.WriteHeavy && i%13 == 6:
 			// a request whose transaction the journal rejects (too large), in the
@@ -455,6 +477,10 @@ func (w *crashWork) continuation(srv *Srv, match int, shrinking []uint64, add fu
 				s.nextUid++
 				s.exec(&Op{K: OpWrite, H: o.FH, Off: o.Size, Count: 100, DataLen: 100, Uid: 900000 + s.nextUid, Stable: 2})
 				s.exec(&Op{K: OpRead, H: o.FH, Off: 0, Count: 65536})
+				// grow over whatever lies beyond the end and look at it
+				end := o.Size
+				s.exec(&Op{K: OpSetattr, H: o.FH, SetSize: true, Size: end + 6000})
+				s.exec(&Op{K: OpRead, H: o.FH, Off: end - minU64(end, 200), Count: 8192})
 			case KDir:
 				s.exec(&Op{K: OpReaddirplus, H: o.FH, Count: 65536, Dircount: 65536})
 			}
